@@ -1027,7 +1027,7 @@ def c01_cases_and_check(ctx, n=None, replay_case=None):
 
 def run(ctx, replay=None):
     C.run_gate(ctx, extra_props=("C01_ngram_skip_edge",))
-    n = 800 if ctx.quick else 25000
+    n = 800 if ctx.quick else 19000
     if replay:
         cases = [replay["case"]]
     else:
